@@ -646,6 +646,7 @@ func main() {
 			if hangs >= 2 {
 				break
 			}
+			client.Timeout = 90 * time.Second // if the node is wedged for good the next request shows it soon enough
 		}
 	}
 	// ---- the probe: one request with a huge count, answered (with an error or a result) or not within 6 s
